@@ -246,3 +246,45 @@ Lemma staged_file_lost_p :
   let '(s', r) := exec shipped (PBlock [POp (Ingest Move 2); POp (Purge 2); PFail]) (init e0) in
   r = Raised false /\ cur s' = cur (init e0) /\ fget 2 (ext (init e0)) = Some 102 /\ fget 2 (ext s') = None /\ fget 2 (fs s') = None.
 Proof. vm_compute. repeat split. Qed.
+
+(* ---------------------------------------------------------------------------------------------------------- *)
+(* DatastoreTransaction.rollback swallows the error of EACH undo action separately: an action whose artifact is gone is skipped and
+   the REST of the log (the older events) is still undone.  (Seed C07c moved the handler around the whole loop.) *)
+Lemma undo_skips_missing_p : forall d v l s, fget d (fs s) = None -> undo_all (UBack d v :: l) s = undo_all l s.
+Proof. intros d v l s G. unfold undo_all. simpl. rewrite G. reflexivity. Qed.
+
+Lemma undo_continues_p : forall d v b l s, fget d (fs s) = None -> fget b (fs (undo_all (UBack d v :: URm b :: l) s)) = None.
+Proof.
+  intros d v b l s G. rewrite (undo_skips_missing_p d v _ s G).
+  destruct (fget b (fs (undo_all (URm b :: l) s))) eqn:E; [|reflexivity]. exfalso.
+  assert (X : fget b (fs (undo_all (URm b :: l) s)) <> None) by (rewrite E; discriminate).
+  unfold undo_all in X. simpl in X. apply (undo_shrinks l) in X. simpl in X. rewrite fget_frm, N.eqb_refl in X. apply X; reflexivity.
+Qed.
+
+(* the variant that stops at the first undo action that fails (a move-back whose artifact is gone) *)
+Fixpoint undo_stop (l : list undo) (s : st) : st :=
+  match l with
+  | [] => s
+  | UBack d v :: r => match fget d (fs s) with Some _ => undo_stop r (run_undo s (UBack d v)) | None => s end
+  | u :: r => undo_stop r (run_undo s u)
+  end.
+
+Definition s_undo : st := mkst db0 [] [] [(3, 1)] [] None None false false.
+
+Lemma undo_stop_leaves_older_artifact_p :
+  fget 2 (fs s_undo) = None /\ fget 3 (fs (undo_stop [UBack 2 102; URm 3] s_undo)) = Some 1 /\
+  fget 3 (fs (undo_all [UBack 2 102; URm 3] s_undo)) = None.
+Proof. vm_compute. repeat split. Qed.
+
+(* the trigger of seed C07c on the shipped model: put B, ingest(move) A, purge A, fail -- B's artifact is removed by the rollback
+   although A's move-back found nothing; also with the ingest + purge inside a nested block that commits *)
+Lemma undo_continues_program_p :
+  (let '(s', r) := exec shipped (PBlock [POp (Put 3 1); POp (Ingest Move 2); POp (Purge 2); PFail]) (init e0) in
+   r = Raised false /\ cur s' = cur (init e0) /\ fs s' = [] /\ ptr s' = []) /\
+  (let '(s', r) := exec shipped (PBlock [POp (Put 3 1); PBlock [POp (Ingest Move 2); POp (Purge 2)]; PFail]) (init e0) in
+   r = Raised false /\ cur s' = cur (init e0) /\ fs s' = [] /\ ptr s' = []).
+Proof. split; vm_compute; repeat split. Qed.
+
+Lemma undo_continues_both_p : forall d v b l s,
+  fget d (fs s) = None -> undo_all (UBack d v :: l) s = undo_all l s /\ fget b (fs (undo_all (UBack d v :: URm b :: l) s)) = None.
+Proof. intros d v b l s G. split; [apply undo_skips_missing_p; exact G | apply undo_continues_p; exact G]. Qed.
